@@ -4,7 +4,7 @@ quick and thorough check of each property."""
 
 def J(pkg, harness, **params):
     extra = {}
-    for k in ("fuel", "timeout_s", "max_paths", "query_ms"):
+    for k in ("fuel", "timeout_s", "max_paths", "query_ms", "heavy"):
         if k in params:
             extra[k] = params.pop(k)
     d = dict(pkgshort=pkg, harness=harness, params=params)
@@ -32,9 +32,9 @@ def c02_jobs(tier):
     if tier == "quick":
         jobs += [J("hsms", "ZZ_C02_tree", depth=2, width=2, menu=2, maxn=1)]
     else:
-        jobs += [J("hsms", "ZZ_C02_tree", depth=2, width=2, menu=6, maxn=1, timeout_s=1500),
-                 J("hsms", "ZZ_C02_tree", depth=3, width=2, menu=2, maxn=1, timeout_s=1500),
-                 J("hsms", "ZZ_C02_tree", depth=1, width=3, menu=13, maxn=2, timeout_s=1500)]
+        jobs += [J("hsms", "ZZ_C02_tree", depth=2, width=2, menu=6, maxn=1, timeout_s=7200),
+                 J("hsms", "ZZ_C02_tree", depth=3, width=2, menu=2, maxn=1, timeout_s=7200),
+                 J("hsms", "ZZ_C02_tree", depth=1, width=3, menu=13, maxn=2, timeout_s=7200)]
     jobs += [J("hsms", "ZZ_C02_incomplete", which=w) for w in range(4)]
     jobs += [J("ast", "ZZ_C13_header", typ=t) for t in range(14)]  # format byte + shortest length for every size
     W = [1, 1, 1, 1, 8, 1, 2, 4, 8, 4, 8, 1, 2, 4]
@@ -43,9 +43,9 @@ def c02_jobs(tier):
         if tier != "quick":
             sizes += [65535, 65536] if W[k] == 1 else [65536]
         for b in sizes:
-            jobs.append(J("hsms", "ZZ_C02_boundary", kind=k, n=(b + W[k] - 1) // W[k], fuel=2_000_000_000, timeout_s=3300))
+            jobs.append(J("hsms", "ZZ_C02_boundary", kind=k, n=(b + W[k] - 1) // W[k], fuel=2_000_000_000, timeout_s=7200))
     for n in ([300, 70000] if tier == "quick" else [300, 70000, 16777215]):
-        jobs.append(J("hsms", "ZZ_C02_bigmessage", n=n, fuel=8_000_000_000, timeout_s=3300))
+        jobs.append(J("hsms", "ZZ_C02_bigmessage", n=n, heavy=(1 if n > 500000 else 0), fuel=8_000_000_000, timeout_s=7200))
     return jobs
 
 
@@ -59,9 +59,9 @@ def c01_jobs(tier):
         jobs += [J("hsms", "ZZ_C01_tree", depth=2, width=2, menu=2, maxn=1)]
         bsizes = [255, 256, 257]
     else:
-        jobs += [J("hsms", "ZZ_C01_tree", depth=2, width=2, menu=6, maxn=1, timeout_s=1500),
-                 J("hsms", "ZZ_C01_tree", depth=3, width=2, menu=2, maxn=1, timeout_s=1500),
-                 J("hsms", "ZZ_C01_tree", depth=1, width=3, menu=13, maxn=2, timeout_s=1500)]
+        jobs += [J("hsms", "ZZ_C01_tree", depth=2, width=2, menu=6, maxn=1, timeout_s=7200),
+                 J("hsms", "ZZ_C01_tree", depth=3, width=2, menu=2, maxn=1, timeout_s=7200),
+                 J("hsms", "ZZ_C01_tree", depth=1, width=3, menu=13, maxn=2, timeout_s=7200)]
         bsizes = [255, 256, 257, 65535, 65536]
     for kind in (0, 1, 3, 11, 12, 6):  # list, binary, ascii, u1, u2, i2
         w = [1, 1, 1, 1, 8, 1, 2, 4, 8, 4, 8, 1, 2, 4][kind]
@@ -75,7 +75,7 @@ def c01_jobs(tier):
 
 def c03_jobs(tier):
     ks = [0, 1, 2, 3] if tier == "quick" else [0, 1, 2, 3, 4, 5]
-    jobs = [J("hsms", "ZZ_C03_raw", k=k, freelen=0, timeout_s=(240 if tier == "quick" else 3000)) for k in ks]
+    jobs = [J("hsms", "ZZ_C03_raw", k=k, freelen=0, timeout_s=(1500 if tier == "quick" else 7200)) for k in ks]
     jobs += [J("hsms", "ZZ_C03_raw", k=k, freelen=1) for k in ([0, 1] if tier == "quick" else [0, 1, 2])]
     ns = [0, 1, 2] if tier == "quick" else [0, 1, 2, 3]
     for kind in range(1, 14):
@@ -89,20 +89,20 @@ def c03_jobs(tier):
         for nlb, present in ((2, 0), (2, 256), (2, 257), (3, 0), (3, 256), (3, 300)) + (() if tier == "quick" else ((3, 65536), (2, 65535))):
             if tier == "quick" and kind == 1 and present not in (256,):
                 continue
-            jobs.append(J("hsms", "ZZ_C03_lenbytes", kind=kind, nlb=nlb, present=present, fuel=2_000_000_000, timeout_s=(250 if tier == "quick" else 3300)))
+            jobs.append(J("hsms", "ZZ_C03_lenbytes", kind=kind, nlb=nlb, present=present, fuel=2_000_000_000, timeout_s=(1500 if tier == "quick" else 7200)))
     for order in range(4):
         jobs.append(J("hsms", "ZZ_C03_mixed", order=order, fuel=400_000_000))
     # decode -> re-encode of whole trees (harness shared with C01): nested lists of equal size, empty items first, ...
     if tier == "quick":
         jobs.append(J("hsms", "ZZ_C01_tree", depth=2, width=2, menu=2, maxn=1))
     else:
-        jobs.append(J("hsms", "ZZ_C01_tree", depth=2, width=2, menu=4, maxn=1, timeout_s=3300))
+        jobs.append(J("hsms", "ZZ_C01_tree", depth=2, width=2, menu=4, maxn=1, timeout_s=7200))
     return jobs
 
 
 def c07_jobs(tier):
     ks = [0, 1, 2, 3] if tier == "quick" else [0, 1, 2, 3, 4, 5]
-    jobs = [J("hsms", "ZZ_C07_raw", k=k, freelen=0, timeout_s=(240 if tier == "quick" else 3000)) for k in ks]
+    jobs = [J("hsms", "ZZ_C07_raw", k=k, freelen=0, timeout_s=(1500 if tier == "quick" else 7200)) for k in ks]
     jobs += [J("hsms", "ZZ_C07_raw", k=k, freelen=1) for k in [0, 1]]
     depths = [0, 1, 2] if tier == "quick" else [0, 1, 2, 3, 4]
     for d in depths:
@@ -111,7 +111,7 @@ def c07_jobs(tier):
                 for kind in ((0, 1, 3, 6, 9) if tier == "quick" else range(14)):
                     jobs.append(J("hsms", "ZZ_C07_declared", depth=d, nlb=nlb, present=present, kind=kind))
     for nlb, kind in ((2, 1), (3, 1), (3, 0), (3, 3), (2, 6)):
-        jobs.append(J("hsms", "ZZ_C07_sparecap", nlb=nlb, kind=kind, extra=200000, fuel=400_000_000, timeout_s=(250 if tier == "quick" else 3300)))
+        jobs.append(J("hsms", "ZZ_C07_sparecap", nlb=nlb, kind=kind, extra=200000, fuel=400_000_000, timeout_s=(1500 if tier == "quick" else 7200)))
     for fam in range(8):
         scale = {3: 30000, 6: 6000, 7: 16000}.get(fam, 20000)
         jobs.append(J("hsms", "ZZ_C07_growth", fam=fam, j=(32 if tier == "quick" or fam == 6 else 128), scale=scale, fuel=400_000_000))
@@ -141,7 +141,7 @@ def c09_jobs(tier):
 
 def c18_jobs(tier):
     steps = [1, 2] if tier == "quick" else [1, 2, 3]
-    return [J("ast", "ZZ_C18_producers", w0=w, steps=s, timeout_s=(250 if tier == "quick" else 3000)) for w in (0, 1, 2) for s in steps]
+    return [J("ast", "ZZ_C18_producers", w0=w, steps=s, timeout_s=(1500 if tier == "quick" else 7200)) for w in (0, 1, 2) for s in steps]
 
 
 def c16_jobs(tier):
@@ -149,13 +149,13 @@ def c16_jobs(tier):
     for order in (0, 1, 2):
         jobs.append(J("ast", "ZZ_C16_leaf", order=order, maxn=(2 if tier == "quick" else 3)))
         if tier == "quick":
-            jobs.append(J("ast", "ZZ_C16_tree", order=order, depth=1, width=2, maxn=1, kinds=1, timeout_s=250))
-            jobs.append(J("ast", "ZZ_C16_tree", order=order, depth=0, width=3, maxn=1, kinds=4, timeout_s=250))
+            jobs.append(J("ast", "ZZ_C16_tree", order=order, depth=1, width=2, maxn=1, kinds=1, timeout_s=1500))
+            jobs.append(J("ast", "ZZ_C16_tree", order=order, depth=0, width=3, maxn=1, kinds=4, timeout_s=1500))
         else:
-            jobs.append(J("ast", "ZZ_C16_tree", order=order, depth=1, width=2, maxn=1, kinds=2, timeout_s=3000))
-            jobs.append(J("ast", "ZZ_C16_tree", order=order, depth=1, width=2, maxn=1, kinds=3, timeout_s=3000))
-            jobs.append(J("ast", "ZZ_C16_tree", order=order, depth=0, width=3, maxn=2, kinds=7, timeout_s=3000))
-            jobs.append(J("ast", "ZZ_C16_tree", order=order, depth=2, width=2, maxn=1, kinds=1, timeout_s=3000))
+            jobs.append(J("ast", "ZZ_C16_tree", order=order, depth=1, width=2, maxn=1, kinds=2, timeout_s=7200))
+            jobs.append(J("ast", "ZZ_C16_tree", order=order, depth=1, width=2, maxn=1, kinds=3, timeout_s=7200))
+            jobs.append(J("ast", "ZZ_C16_tree", order=order, depth=0, width=3, maxn=2, kinds=7, timeout_s=7200))
+            jobs.append(J("ast", "ZZ_C16_tree", order=order, depth=2, width=2, maxn=1, kinds=1, timeout_s=7200))
         jobs.append(J("ast", "ZZ_C16_shared", order=order))
     jobs += [J("ast", "ZZ_C16_dupfill", which=w) for w in range(5)]
     jobs += [J("ast", "ZZ_C16_ascii", k=k) for k in ([0, 1, 2, 3] if tier == "quick" else [0, 1, 2, 3, 4, 5])]
@@ -173,14 +173,14 @@ def c10_jobs(tier):
                     out.append(J("ast", "ZZ_C10_expand", **p, **kw))
         return out
     if tier == "quick":
-        return shards(1, 2, 1, 2, 2, 1, 0, timeout_s=280)
-    return (shards(1, 2, 1, 3, 4, 1, 1, timeout_s=3300) + shards(2, 1, 1, 2, 2, 1, 1, timeout_s=3300)
-            + shards(1, 2, 1, 2, 2, 2, 1, timeout_s=3300) + shards(0, 3, 1, 3, 4, 0, 0, timeout_s=3300))
+        return shards(1, 2, 1, 2, 2, 1, 0, timeout_s=1500)
+    return (shards(1, 2, 1, 3, 4, 1, 1, timeout_s=7200) + shards(2, 1, 1, 2, 2, 1, 1, timeout_s=7200)
+            + shards(1, 2, 1, 2, 2, 2, 1, timeout_s=7200) + shards(0, 3, 1, 3, 4, 0, 0, timeout_s=7200))
 
 
 def c11_jobs(tier):
     jobs = [J("hsms", "ZZ_C11_alias", scn=i, h=0) for i in range(11)]
-    jobs += [J("hsms", "ZZ_C11_alias", scn=11, h=h, timeout_s=(250 if tier == "quick" else 3300)) for h in ([1, 2] if tier == "quick" else [1, 2, 3])]
+    jobs += [J("hsms", "ZZ_C11_alias", scn=11, h=h, timeout_s=(1500 if tier == "quick" else 7200)) for h in ([1, 2] if tier == "quick" else [1, 2, 3])]
     return jobs
 
 
@@ -189,7 +189,7 @@ INT_TYPES = [4, 5, 6, 7, 10, 11, 12, 13]  # I8 I1 I2 I4 U8 U1 U2 U4 (index into 
 
 def c05_jobs(tier):
     jobs = []
-    T = dict(timeout_s=(250 if tier == "quick" else 3300))
+    T = dict(timeout_s=(1500 if tier == "quick" else 7200))
     for typ in INT_TYPES + [1, 3]:
         for neg in (0, 1):
             if tier == "quick":
@@ -222,7 +222,7 @@ def c05_jobs(tier):
 
 def c15_jobs(tier):
     jobs = []
-    T = dict(timeout_s=(250 if tier == "quick" else 3300))
+    T = dict(timeout_s=(1500 if tier == "quick" else 7200))
     types = [0, 3, 1, 2, 5, 9, 12] if tier == "quick" else list(range(14))
     ks = [(1, 1)] if tier == "quick" else [(1, 1), (2, 2), (3, 1), (5, 4)]
     for typ in types:
@@ -249,7 +249,7 @@ SKEL_LEN = [43, 36, 6, 21, 41, 25, 62, 53, 34]
 
 def c06_jobs(tier):
     jobs = [J("sml", "ZZ_C06_base")]
-    T = dict(timeout_s=(270 if tier == "quick" else 3300))
+    T = dict(timeout_s=(1500 if tier == "quick" else 7200))
     for k in ([0, 1, 2, 3] if tier == "quick" else [0, 1, 2, 3, 4]):
         jobs.append(J("sml", "ZZ_C06_raw", k=k, **T))
     for sk in range(9):
@@ -275,7 +275,7 @@ def c06_jobs(tier):
 
 def c19_jobs(tier):
     jobs = []
-    T = dict(timeout_s=(250 if tier == "quick" else 3300))
+    T = dict(timeout_s=(1500 if tier == "quick" else 7200))
     nt, ns = 9, 8
     for t1 in range(nt):
         for t2 in range(nt):
@@ -294,7 +294,7 @@ SEQ_TOK = [20, 17, 16, 7, 14, 7, 16, 32]
 
 def c08_jobs(tier):
     jobs = []
-    T = dict(timeout_s=(250 if tier == "quick" else 3300))
+    T = dict(timeout_s=(1500 if tier == "quick" else 7200))
     for seq, nt in enumerate(SEQ_TOK):
         for j in range(nt + 1):
             for n in ((0, 1, 2) if tier == "quick" else (0, 1, 2, 3)):
@@ -316,7 +316,7 @@ def c08_jobs(tier):
 
 def c04_jobs(tier):
     jobs = []
-    T = dict(timeout_s=(270 if tier == "quick" else 3300))
+    T = dict(timeout_s=(1500 if tier == "quick" else 7200))
     for k in ([0, 1, 2] if tier == "quick" else [0, 1, 2, 3, 4]):
         jobs.append(J("sml", "ZZ_C04_header", k=k, item=(1 if k <= 1 else 0), sf=(1 if k <= 1 else 0), **T))
     if tier != "quick":
@@ -370,10 +370,10 @@ def c12_jobs(tier):
         for kind in range(7):
             if tier == "quick" and k == 4 and kind not in (0, 6):
                 continue
-            jobs.append(J("ast", "ZZ_C12_varname", k=k, kind=kind, timeout_s=(200 if tier == "quick" else 3000)))
+            jobs.append(J("ast", "ZZ_C12_varname", k=k, kind=kind, timeout_s=(1500 if tier == "quick" else 7200)))
     for k in ([0, 1, 2] if tier == "quick" else [0, 1, 2, 3, 4]):
         for kind in range(4):
-            jobs.append(J("ast", "ZZ_C12_varname_idx", k=k, kind=kind, timeout_s=(200 if tier == "quick" else 3000)))
+            jobs.append(J("ast", "ZZ_C12_varname_idx", k=k, kind=kind, timeout_s=(1500 if tier == "quick" else 7200)))
     jobs += [J("ast", "ZZ_C12_ellipsis", which=i) for i in range(6)]
     jobs += [J("ast", "ZZ_C12_ellipsis", which=6, k=k) for k in ([0, 1, 2, 3] if tier == "quick" else [0, 1, 2, 3, 4, 5])]
     jobs += [J("ast", "ZZ_C12_dupnames", which=i) for i in range(6)]
@@ -388,7 +388,7 @@ TYPE_W = [1, 1, 1, 1, 8, 1, 2, 4, 8, 4, 8, 1, 2, 4]
 def c13_jobs(tier):
     jobs = [J("ast", "ZZ_C13_header", typ=t) for t in range(14)]
     jobs += [J("ast", "ZZ_C13_bytelen", typ=t) for t in range(14)]
-    BIG = dict(fuel=4_000_000_000, timeout_s=3300)
+    BIG = dict(fuel=4_000_000_000, timeout_s=7200)
     for t in range(14):
         w = TYPE_W[t]
         sizes = [0, 1, 3, 255 // w, 255 // w + 1]
@@ -397,16 +397,16 @@ def c13_jobs(tier):
             if w >= 4 or t == 3:
                 sizes += [16777215 // w, 16777215 // w + 1]  # the real limit for 4- and 8-byte formats and ASCII
         for n in sizes:
-            jobs.append(J("ast", "ZZ_C13_factory", typ=t, n=n, **BIG))
+            jobs.append(J("ast", "ZZ_C13_factory", typ=t, n=n, heavy=(1 if n > 500000 else 0), **BIG))
     if tier != "quick":
         # first size beyond the limit for the 1- and 2-byte formats (the at-limit side would need 16M-element items)
         for t in (1, 2, 5, 6, 11, 12):
-            jobs.append(J("ast", "ZZ_C13_factory", typ=t, n=16777215 // TYPE_W[t] + 1, **BIG))
+            jobs.append(J("ast", "ZZ_C13_factory", typ=t, n=16777215 // TYPE_W[t] + 1, heavy=1, **BIG))
     # decoder read-back of length fields (harnesses shared with C03): all length bytes symbolic with
     # 256+ bytes present, and length fields of different widths in sequence
     for kind in (3, 1):
         for nlb, present in ((1, 0), (1, 255), (2, 0), (2, 256), (3, 0), (3, 256)) + (() if tier == "quick" else ((2, 65535), (3, 65536))):
-            jobs.append(J("hsms", "ZZ_C03_lenbytes", kind=kind, nlb=nlb, present=present, fuel=2_000_000_000, timeout_s=(250 if tier == "quick" else 3300)))
+            jobs.append(J("hsms", "ZZ_C03_lenbytes", kind=kind, nlb=nlb, present=present, fuel=2_000_000_000, timeout_s=(1500 if tier == "quick" else 7200)))
     for order in range(4):
         jobs.append(J("hsms", "ZZ_C03_mixed", order=order, fuel=400_000_000))
     return jobs
